@@ -6,6 +6,10 @@ Contracts (sidecar; /repo untouched):
         TP = predpos(pos,t)+easy_pos, FN = |pos|-predpos(pos,t), FP = predpos(neg,t), TN = |neg|-predpos(neg,t)+easy_neg,
         row sums independent of t, cells >= 0, shape X+(2,2), binary ConfusionMatrix
   pointwise_cm(labels, scores, threshold)      ensures cell (a,b) of (sample i, threshold x) is  [label_i is class a] and [rule predicts b]
+  Scores.from_labels(labels, scores, ...)      ensures pos = exactly the scores labelled pos_label, neg = exactly the others (mask-selection
+        contract); easy counts, configuration and is_sorted forwarded to the constructor
+  lemma L2 (pointwise sum)                     sum over the samples of pointwise_cm = cm of from_labels(labels, scores): induction over
+        the number of samples (see build_pointwise_sum)
 The post-conditions are written from the property statement (README decision table) with the ghost functions
 cnt_lt / cnt_le; they never mention a value computed by the code.
 """
@@ -92,6 +96,189 @@ def build(sizes=None):
             obs += obs_here
     obs += build_init(sizes)
     obs += build_pointwise(sizes)
+    if sizes is None:
+        try:
+            obs += build_from_labels()
+            obs += build_pointwise_sum()
+        except Exception as e:      # noqa: BLE001
+            import os
+            if os.environ.get("VERIF_DEBUG"):
+                import traceback
+                traceback.print_exc()
+            from vf.engine import Oblig
+            obs.append(Oblig("C01/from_labels/executes", [], BoolVal(False), "post", ("C01",), {"engine_error": f"{type(e).__name__}: {e}"}))
+    return obs
+
+
+def build_pointwise_sum():
+    """Lemma L2: summing the pointwise confusion matrices over the samples gives the confusion matrix of
+    Scores.from_labels(labels, scores) at the same threshold.  pointwise_cm, from_labels (mask selection + constructor with np.sort)
+    and cm are executed on the same symbolic labels / scores; the sum over samples is the recursive ghost function
+    S_ab(k+1) = S_ab(k) + [cell (a,b) of sample k].  Induction over the prefix length k with, per class c (label == / != pos_label):
+      rank_c(k) = #{i<k : sample i is in c}                       cut invariant: rank_c(k) is the cut of the selection map sigma_c at k
+      D<_c(k), D<=_c(k) = #{i<k : in c and score_i < / <= t}      count invariant: the same counts of the *selected* array up to rank_c(k)
+    (counts of an unsorted array are the recursive ghost functions c<(j+1) = c<(j) + [sel_j < t]; the specification function cnt_lt of
+    the named array at its full length is c<(m) by definition).  np.sort's contract (counts preserved) links them to the sorted arrays
+    that cm searches."""
+    from z3 import ForAll, Function, Implies, IntSort, Sum
+    from vf.engine import Axis, Obj, Oblig
+    obs = []
+    for sc, ec in B.CONFIGS:
+        tag = f"[{sc},{ec}]"
+        ex = new_exec()
+        path = Path()
+        SCa = P.mk_array(ex, path, "scores_arg", None, prov="param:scores")
+        from z3 import Array
+        LB = Array("labels_arg", IntSort(), IntSort())
+        n = toI(SCa.axes[0].size)
+        labels = T((Axis("L", SCa.axes[0].size),), lambda k: LB[toI(k)], kind="int", prov="param:labels")
+        pl, t = Int("pos_label"), Real("t")
+
+        def ob(name, goal, hyps, kind="lemma", meta=None):
+            obs.append(Oblig(f"C01/pointwise-sum/{name}{tag}", hyps, goal, kind, ("C01",), dict({"key": f"C01/pointwise-sum/{name}"}, **(meta or {}))))
+        o1 = run_function(ex, "scores", "pointwise_cm", [labels, SCa, t], {"pos_label": pl, "score_class": sc, "equal_class": ec}, path=path)
+        from vf.common import multi_path_meta
+        if len(o1) != 1 or o1[0].raised:
+            ob("pointwise_cm-single-path", BoolVal(False), [], "post", multi_path_meta(o1))
+            continue
+        pw = o1[0].value
+        owner, fn = ex.find("Scores", "from_labels")
+        try:
+            sobj = ex.call_node(owner, fn, [labels, SCa], {"pos_label": pl, "score_class": sc, "equal_class": ec}, o1[0].path)
+        except Exception as e:      # noqa: BLE001
+            ob("from_labels-executes", BoolVal(False), [], "post", {"engine_error": f"{type(e).__name__}: {e}"})
+            continue
+        o2 = run_method(ex, "Scores", "cm", sobj, [t], path=o1[0].path)
+        if len(o2) != 1 or o2[0].raised or not (isinstance(pw, T) and pw.ndim == 3):
+            ob("cm-single-path", BoolVal(False), [], "post", multi_path_meta(o2) or {"engine_error": "shape of pointwise_cm not recognised"})
+            continue
+        CM = o2[0].value.attrs["matrix"]
+        hy = list(o2[0].path.pc)
+        k, K = Int("k!ind"), Int("K!ind")
+        facts_final = []
+        lem_ok = True
+        cls = {}
+        for nm, inclass in (("pos", lambda i: LB[i] == pl), ("neg", lambda i: LB[i] != pl)):
+            srt = sobj.attrs[nm]                                   # the sorted array cm searches
+            sel_t = getattr(srt, "sorted_of", None)
+            sel = getattr(sel_t, "select_of", None) if sel_t is not None else None
+            cnted = getattr(sel_t, "counted_as", None)
+            if sel is None or cnted is None:
+                ob(f"{nm}-is-the-sorted-mask-selection", BoolVal(False), [], "post", {"engine_error": "selection / sort witnesses not found"})
+                lem_ok = False
+                break
+            _, mask, sigma, rho, m = sel
+            Asel, _ = cnted
+            rank = Function(f"rank_{nm}", IntSort(), IntSort())
+            Dlt, Dle = Function(f"Dlt_{nm}", IntSort(), IntSort()), Function(f"Dle_{nm}", IntSort(), IntSort())
+            clt, cle = Function(f"clt_{nm}", IntSort(), IntSort()), Function(f"cle_{nm}", IntSort(), IntSort())
+            sk = lambda i: toR(SCa.elem(i))
+            ax = [rank(0) == 0, Dlt(0) == 0, Dle(0) == 0, clt(0) == 0, cle(0) == 0,
+                  ForAll([k], Implies(k >= 0, rank(k + 1) == rank(k) + If(inclass(k), 1, 0)), patterns=[rank(k + 1)]),
+                  ForAll([k], Implies(k >= 0, Dlt(k + 1) == Dlt(k) + If(And(inclass(k), sk(k) < t), 1, 0)), patterns=[Dlt(k + 1)]),
+                  ForAll([k], Implies(k >= 0, Dle(k + 1) == Dle(k) + If(And(inclass(k), sk(k) <= t), 1, 0)), patterns=[Dle(k + 1)]),
+                  ForAll([k], Implies(k >= 0, clt(k + 1) == clt(k) + If(Asel[k] < t, 1, 0)), patterns=[clt(k + 1)]),
+                  ForAll([k], Implies(k >= 0, cle(k + 1) == cle(k) + If(Asel[k] <= t, 1, 0)), patterns=[cle(k + 1)]),
+                  # definition of the counting functions of the (unsorted) selected array at its full length
+                  P.cnt_lt(Asel, m, t) == clt(m), P.cnt_le(Asel, m, t) == cle(m)]
+            names = {str(sigma), str(rho), str(Asel), str(m)}
+            rel = [h for h in hy if any(x_ in h.sexpr() for x_ in names)]
+            maskdef_goal = toB(mask.elem(K)) == inclass(K)
+            ob(f"{nm}: the selection mask is the class test", maskdef_goal, hy + [0 <= K, K < n])
+            maskdef = ForAll([k], Implies(And(0 <= k, k < n), toB(mask.elem(k)) == inclass(k)), patterns=[LB[k]])
+            inv = lambda kk, rank=rank, sigma=sigma, m=m, clt=clt, cle=cle, Dlt=Dlt, Dle=Dle: And(
+                0 <= rank(kk), rank(kk) <= m, Or(rank(kk) == 0, sigma(rank(kk) - 1) < kk), Or(rank(kk) == m, sigma(rank(kk)) >= kk),
+                clt(rank(kk)) == Dlt(kk), cle(rank(kk)) == Dle(kk))
+            base_h = rel + ax + [maskdef, n >= 0]
+            ob(f"{nm}: invariant holds at k=0", inv(0), base_h)
+            # checked hints (instances of the selection contract at the current sample), then the step by cases
+            h1 = Implies(inclass(K), And(0 <= rho(K), rho(K) < m, sigma(rho(K)) == K))
+            h2 = Implies(And(0 <= rank(K), rank(K) < m), And(Asel[rank(K)] == sk(sigma(rank(K))), inclass(sigma(rank(K))), 0 <= sigma(rank(K)), sigma(rank(K)) < n))
+            h3 = Implies(And(1 <= rank(K), rank(K) <= m), And(inclass(sigma(rank(K) - 1)), 0 <= sigma(rank(K) - 1)))
+            ob(f"{nm}: step hints (selection contract at sample k)", And(h1, h2, h3), base_h + [0 <= K, K < n])
+            for case_, cond in (("sample-k-in-class", inclass(K)), ("sample-k-not-in-class", Not(inclass(K)))):
+                sig_only = [h for h in rel if str(sigma) in h.sexpr() and str(Asel) not in h.sexpr()]
+                rk = rank(K)
+                # instances of the recursive definitions at j = rank(k) (E-matching does not see clt(rank(k) + 1) in clt(rank(k+1)))
+                inst_ax = [Implies(rk >= 0, clt(rk + 1) == clt(rk) + If(Asel[rk] < t, 1, 0)), Implies(rk >= 0, cle(rk + 1) == cle(rk) + If(Asel[rk] <= t, 1, 0)),
+                           rank(K + 1) == rk + If(inclass(K), 1, 0), Dlt(K + 1) == Dlt(K) + If(And(inclass(K), sk(K) < t), 1, 0), Dle(K + 1) == Dle(K) + If(And(inclass(K), sk(K) <= t), 1, 0)]
+                ob(f"{nm}: invariant is preserved from k to k+1/{case_}", inv(K + 1), sig_only + inst_ax + [n >= 0, 0 <= K, K < n, inv(K), cond, h1, h2, h3],
+                   meta={"idx": [str(K), str(rank(K)), str(rank(K) - 1), str(rho(K))]})
+            lem = ForAll([k], Implies(And(0 <= k, k <= n), inv(k)), patterns=[rank(k)])
+            ob(f"{nm}: class size is rank(n) and the counts of the selection are the class counts", And(m == rank(n), P.cnt_lt(Asel, m, t) == Dlt(n), P.cnt_le(Asel, m, t) == Dle(n)),
+               base_h + [lem, inv(n)])
+            facts_final += [m == rank(n), P.cnt_lt(Asel, m, t) == Dlt(n), P.cnt_le(Asel, m, t) == Dle(n)]
+            cls[nm] = (rank, Dlt, Dle, ax, inclass)
+        if not lem_ok:
+            continue
+        # the sums over the samples
+        for a, nm in ((0, "pos"), (1, "neg")):
+            rank, Dlt, Dle, ax, inclass = cls[nm]
+            predpos_k = {("pos", "pos"): lambda kk: rank(kk) - Dlt(kk), ("pos", "neg"): lambda kk: rank(kk) - Dle(kk),
+                         ("neg", "pos"): lambda kk: Dle(kk), ("neg", "neg"): lambda kk: Dlt(kk)}[(sc, ec)]
+            for b in (0, 1):
+                S = Function(f"S_{a}{b}", IntSort(), IntSort())
+                axS = [S(0) == 0, ForAll([k], Implies(k >= 0, S(k + 1) == S(k) + If(toB(pw.elem(k, a, b)), 1, 0)), patterns=[S(k + 1)])]
+                want = (lambda kk: predpos_k(kk)) if b == 0 else (lambda kk: rank(kk) - predpos_k(kk))
+                ob(f"cell-{a}{b}: partial sums follow the decision rule at k=0", S(0) == want(0), ax + axS)
+                ob(f"cell-{a}{b}: partial sums follow the decision rule from k to k+1", S(K + 1) == want(K + 1), hy + ax + axS + [0 <= K, K < n, S(K) == want(K)])
+                # the clause: sum over all samples = the cell of the confusion matrix of from_labels(labels, scores)
+                allv = [P.cnt_char(*sobj.attrs[x_].sym, t) for x_ in ("pos", "neg") if sobj.attrs[x_].sym is not None]
+                ob(f"cell-{a}{b}: sum over the samples equals cm of from_labels", ToRealI(S(n)) == toR(CM.elem(a, b)), hy + facts_final + allv + [S(n) == want(n)], "post")
+        for so in ex.obligs:
+            so.id = f"C01/pointwise-sum/safety:{so.id}#{len(obs)}{tag}"
+            so.props = ("C01",)
+            obs.append(so)
+    return obs
+
+
+def ToRealI(x):
+    from z3 import ToReal
+    return ToReal(x)
+
+
+def build_from_labels():
+    """Scores.from_labels: pos are exactly the scores labelled pos_label, neg exactly the others (soundness and completeness through
+    the order-preserving contract of boolean-mask selection); easy counts, configuration and is_sorted are forwarded to the constructor"""
+    from z3 import Array, Implies, IntSort
+    from vf.engine import Axis, Obj, Oblig
+    obs = []
+    ex = new_exec()
+    path = Path()
+    sc = P.mk_array(ex, path, "scores_arg", None, prov="param:scores")
+    LB = Array("labels_arg", IntSort(), IntSort())
+    labels = T((Axis("L", sc.axes[0].size),), lambda k: LB[toI(k)], kind="int", prov="param:labels")
+    pl = Int("pos_label")
+    seen = {}
+
+    def c_new(ex_, p_, **kw):
+        seen.update(kw)
+        return Obj("Scores", marker=True)
+    ex.contracts[("Scores", "__new__")] = c_new
+    owner, fn = ex.find("Scores", "from_labels")
+    res = ex.call_node(owner, fn, [labels, sc], {"pos_label": pl, "nb_easy_pos": 3, "nb_easy_neg": 4, "score_class": "neg", "equal_class": "pos", "is_sorted": False}, path)
+    okc = isinstance(res, Obj) and seen.get("nb_easy_pos") == 3 and seen.get("nb_easy_neg") == 4 and seen.get("score_class") == "neg" and seen.get("equal_class") == "pos" \
+        and seen.get("is_sorted") is False
+    obs.append(Oblig("C01/from_labels/forwards-easy-counts-configuration-and-is_sorted-to-the-constructor", [], BoolVal(bool(okc)), "post", ("C01",)))
+    k = ex.new_int("k")
+    n = toI(sc.axes[0].size)
+    for nm, want_eq in (("pos", True), ("neg", False)):
+        a = seen.get(nm)
+        sel = getattr(a, "select_of", None) if isinstance(a, T) else None
+        if sel is None:
+            obs.append(Oblig(f"C01/from_labels/{nm}-is-a-selection-of-the-scores", [], BoolVal(False), "post", ("C01",), {"engine_error": "no selection witness"}))
+            continue
+        src, mask, sigma, rho, m = sel
+        lab_ok = (LB[sigma(k)] == pl) if want_eq else (LB[sigma(k)] != pl)
+        obs.append(Oblig(f"C01/from_labels/{nm}-holds-only-scores-labelled-{'pos_label' if want_eq else 'otherwise'}(soundness)", path.pc,
+                         Implies(And(0 <= k, k < m), And(lab_ok, toR(a.elem(k)) == toR(sc.elem(sigma(k))))), "post", ("C01",)))
+        lab_k = (LB[k] == pl) if want_eq else (LB[k] != pl)
+        obs.append(Oblig(f"C01/from_labels/{nm}-holds-every-score-labelled-{'pos_label' if want_eq else 'otherwise'}(completeness)", path.pc,
+                         Implies(And(0 <= k, k < n, lab_k), And(0 <= rho(k), rho(k) < m, toR(a.elem(rho(k))) == toR(sc.elem(k)))), "post", ("C01",)))
+    for so in ex.obligs:
+        so.id = f"C01/from_labels/safety:{so.id}#{len(obs)}"
+        so.props = ("C01",)
+        obs.append(so)
     return obs
 
 
